@@ -27,6 +27,7 @@ def stepLine (st : DState) (line : String) : DState × String :=
   | "date" :: rest => (st, Date.driverStep rest)
   | "enc" :: rest => (st, Enc.driverStep rest)
   | "doctype" :: rest => (st, Doctype.driverStep rest)
+  | "res" :: rest => (st, San.resDriverStep rest)
   | "san" :: rest => let (s, o) := San.driverStep st.san rest; ({ st with san := s }, o)
   | "base" :: rest => let (s, o) := Base.driverStep st.base rest; ({ st with base := s }, o)
   | _ => (st, "bad-model")
